@@ -529,7 +529,14 @@ class Grammar(object):
                     action[i][terminal] = new_action
                 if item == end_item:
                     new_action = Accept()
-                    assert action[i].get(END_OF_INPUT, new_action) == new_action
+                    if action[i].get(END_OF_INPUT, new_action) != new_action:
+                        conflicts.add(
+                            Conflict(
+                                i,
+                                END_OF_INPUT,
+                                frozenset([action[i][END_OF_INPUT], new_action]),
+                            )
+                        )
                     action[i][END_OF_INPUT] = new_action
         trimmed_goto = collections.defaultdict(dict)
         for k in goto:
